@@ -17,8 +17,10 @@ Print Assumptions C07_firewall_total.
 
 (* Full statement:  forall rvs, alive (run_reads rvs init) = true /\ nothing escapes.
    The pinned code violates it (findings F4, F3).  Proved: it holds for every chunking and every recv fault
-   sequence on the decidable domain [dom]: every complete line of the stream is blank or parses, and recv raises only
-   what _read's except clauses name; for arbitrary raising handlers/callbacks. *)
+   sequence on the decidable domain [dom]: every complete line of the stream is blank or parses, what it makes the bot
+   echo (the PONG payload) is encodable — no lone surrogate, which a decode_raw_line restricted to strict/replace
+   guarantees (inventory DECODE_HANDLERS, checked in tables_ok) — and recv raises only what _read's except clauses name;
+   for arbitrary raising handlers/callbacks. *)
 Theorem C07_loop_survives_on_domain :
   forall St vt decode dispatch addmsg cbs rvs (s : St),
   dispatch_ok St dispatch -> out_ok St cbs -> dom vt decode rvs [] = true ->
@@ -56,7 +58,7 @@ Theorem C07_ping_after :
   quiet St dispatch addmsg cbs -> dispatch_ok St dispatch -> out_ok St cbs ->
   forallb calm rvs = true -> dom vt decode rvs [] = true -> final_buf rvs = [] ->
   mem LFb l = false -> parse_msg vt (decode l) = Ok (Some m) ->
-  is_ping (m_command m) = true -> m_args m = a :: rest -> valid_arg a = true ->
+  is_ping (m_command m) = true -> m_args m = a :: rest -> valid_arg a = true -> encodable a = true ->
   let ms := run_reads St vt decode dispatch addmsg cbs (rvs ++ [RData (l ++ [LFb])]) (init s) in
   alive ms = true /\ crashed ms = false /\ In a (sent (fst (m_p ms))).
 Proof. exact ping_after. Qed.
@@ -81,7 +83,7 @@ Theorem C07_hypotheses_inhabited :
   sent (fst (m_p (run_reads unit (fun _ => true) dec0 h_raise h_raise [cb_bad] ex_rvs (init tt)))) = [[97]] /\
   (mem LFb ex_ping = false /\
    exists m, parse_msg (fun _ => true) (dec0 ex_ping) = Ok (Some m) /\ is_ping (m_command m) = true /\
-             m_args m = [[98]] /\ valid_arg [98] = true).
+             m_args m = [[98]] /\ valid_arg [98] = true /\ encodable [98] = true).
 Proof.
   destruct ex_domain as (H1 & H2 & H3 & H4).
   repeat split; auto using h_raise_ok, cb_bad_ok; try apply ex_quiet; try apply ex_ping_hyp.
@@ -93,3 +95,16 @@ Theorem C07_base_exception_escapes :
   alive (run_reads unit (fun _ => true) dec0 h_base h0 [] [RData [70; 79; 79; 10]] (init tt)) = false.
 Proof. exact base_escapes. Qed.
 Print Assumptions C07_base_exception_escapes.
+
+(* The echo clause of the domain is sharp: outbuffer.encode() in _sendIfMsgs is outside every try.  With a
+   decode_raw_line that yields lone surrogates, the parse-clean line "PING :caf\xe9" kills the driver with
+   UnicodeEncodeError; through a 'replace' decoder the same bytes are answered. *)
+Theorem C07_surrogate_echo_escapes :
+  forall vt,
+  (let ms := run_reads unit vt dec_se h0 h0 [] w_surrogate (init tt) in
+   parse_excs vt dec_se w_surrogate [] = [] /\ dom vt dec_se w_surrogate [] = false /\
+   alive ms = false /\ escapes ms = [Some (XE UnicodeError)] /\ sent (fst (m_p ms)) = []) /\
+  (let ms := run_reads unit vt dec_rep h0 h0 [] w_surrogate (init tt) in
+   dom vt dec_rep w_surrogate [] = true /\ alive ms = true /\ sent (fst (m_p ms)) = [[99; 97; 102; 65533]]).
+Proof. intro vt. split; [exact (surrogate_escapes vt)|exact (replace_survives vt)]. Qed.
+Print Assumptions C07_surrogate_echo_escapes.
